@@ -48,7 +48,7 @@ type opSpec struct {
 	V     int  `json:"v,omitempty"`
 	S     int  `json:"s,omitempty"`
 	Flags int  `json:"flags,omitempty"` // 1 secret, 2 crown jewel
-	Iface int  `json:"iface,omitempty"` // 0 privileged interface, 1 interface that is neither local nor internal
+	Iface int  `json:"iface,omitempty"` // 0 privileged interface, 1 interface that is neither local nor internal, 2 (writes) privileged with cache + delayed writes for another database
 	Fail  bool `json:"fail,omitempty"`
 	TTL   int  `json:"ttl,omitempty"` // relative expiry in seconds (0: none), kept in the record's metadata
 	Raw   bool `json:"raw,omitempty"` // the record is written in the RAW format (no accessor for conditions)
@@ -65,7 +65,7 @@ func (e *env) execConfig(op opSpec, k string) {
 	db, _, _, name := e.iface(op.Iface)
 	st := e.store[k]
 	switch op.Kind {
-	case "hook", "cancelhook", "setfail":
+	case "hook", "cancelhook", "setfail", "exists":
 		return
 
 	case "get":
@@ -400,6 +400,7 @@ type env struct {
 
 	w *database.Interface // local and internal
 	u *database.Interface // neither
+	d *database.Interface // local and internal, with a cache, delaying the writes of another database (writes only)
 
 	store map[string]*srec // pool key -> stored record (tombstones included)
 	fail  map[string]bool
@@ -458,10 +459,23 @@ func (e *env) full(k string) string { return e.p.fullKey(k) }
 func (e *env) poolKey(dbKey string) string { return strings.TrimPrefix(dbKey, e.p.ns) }
 
 func (e *env) iface(i int) (*database.Interface, bool, bool, string) {
-	if i%2 == 1 {
+	if i == 1 {
 		return e.u, false, false, "interface(local=false,internal=false)"
 	}
 	return e.w, true, true, "interface(local=true,internal=true)"
+}
+
+// writerIface: writes (put, put-new) may also go through a privileged interface that has a cache and delays the writes of
+// ANOTHER database: for records of this database it is an interface like any other - stored and announced at once.
+func (e *env) writerIface(i int) (*database.Interface, bool, bool, string) {
+	if i == 2 {
+		if e.d == nil {
+			e.d = database.NewInterface(&database.Options{Local: true, Internal: true, CacheSize: 8, DelayCachedWrites: "c14-some-other-database"})
+		}
+		stats.Class("write_through_an_interface_that_delays_the_writes_of_another_database")
+		return e.d, true, true, "interface(local=true,internal=true,cache,delays writes of another database)"
+	}
+	return e.iface(i)
 }
 
 // safely runs one call into portbase and turns a panic into a failure.
@@ -1027,8 +1041,35 @@ func (e *env) exec(op opSpec) {
 			}
 		}
 
-	case "put", "putnew":
+	case "exists":
+		// Exists is a get whose answer is reduced to yes / no / the error of a vetoing hook: the same hooks are called
 		db, local, internal, name := e.iface(op.Iface)
+		want := e.modelGet(k, local, internal)
+		var ok bool
+		var err error
+		e.safely("Exists", func() { ok, err = db.Exists(e.full(k)) })
+		switch {
+		case want.err != nil:
+			if err == nil || (!e.lenientPostGet && err.Error() != want.err.Error()) {
+				e.failf("HOOK: %s: Exists(%q) returned (%v, %v), expected the vetoing hook's error %q", name, k, ok, err, want.err)
+			}
+		case e.lenientPostGet && want.notFound:
+			// a shadow-deleted record is loaded and found invalid; a PostGet hook with a condition may have seen it and
+			// vetoed (not compared, as for get): "no" or a veto, never "yes"
+			if ok {
+				e.failf("GET: %s: Exists(%q) says yes, the record is deleted", name, k)
+			}
+		case err != nil:
+			e.failf("GET: %s: Exists(%q) failed with %q", name, k, err)
+		case want.notFound && ok:
+			e.failf("GET: %s: Exists(%q) says yes, the record is not there", name, k)
+		case !want.notFound && !ok:
+			e.failf("GET: %s: Exists(%q) says no, the record is there (denied=%v)", name, k, want.denied)
+		}
+		stats.Class("exists_judged_like_a_get")
+
+	case "put", "putnew":
+		db, local, internal, name := e.writerIface(op.Iface)
 		if e.p.inj != nil && e.p.inj.readOnly {
 			cur := e.newRec(op)
 			var err error
